@@ -91,7 +91,7 @@ func Run(ctx *core.Ctx) {
 	} {
 		d := d
 		bg(func() {
-			cfg := fmt.Sprintf("CONSTANT Dev = {\"%s\"}\nCONSTANT CfgName = \"%s\"\nCONSTANT GSize = 2\nINIT Init\nNEXT Next\n%s %s\nCHECK_DEADLOCK FALSE\n", d.dev, d.cfg, d.kind, d.prop)
+			cfg := fmt.Sprintf("CONSTANT Dev = {\"%s\"}\nCONSTANT CfgName = \"%s\"\nCONSTANT GSize = 2\nCONSTANT Small = {1, 5}\nINIT Init\nNEXT Next\n%s %s\nCHECK_DEADLOCK FALSE\n", d.dev, d.cfg, d.kind, d.prop)
 			res, err := ctx.RunTLC(core.TLCOpts{Module: "SoyConcurrent", Cfg: cfg, Workers: 1, Timeout: 3 * time.Minute, Label: "deviation:" + d.dev + "/" + d.prop})
 			if err != nil {
 				ctx.ToolError("deviation run %s: %v", d.dev, err)
@@ -142,7 +142,11 @@ func Run(ctx *core.Ctx) {
 // exploreSchedules runs TLC on the reference model: all interleavings for one
 // configuration and group size; returns the exported family.
 func exploreSchedules(ctx *core.Ctx, cfgName string, g int) (*ModelFamily, error) {
-	cfg := fmt.Sprintf("CONSTANT Dev = {}\nCONSTANT CfgName = \"%s\"\nCONSTANT GSize = %d\nINIT Init\nNEXT Next\nPROPERTY ReadOnlySharing\nINVARIANT NonInterference\nINVARIANT AllDecided\nINVARIANT StepsAsSolo\nINVARIANT ExportSetup\nINVARIANT ExportSchedule\nCHECK_DEADLOCK FALSE\n", cfgName, g)
+	small := "{1, 5}" // groups of 3: quick over two of the smallest cases, thorough over all three
+	if ctx.Thorough() {
+		small = "{1, 2, 5}"
+	}
+	cfg := fmt.Sprintf("CONSTANT Dev = {}\nCONSTANT CfgName = \"%s\"\nCONSTANT GSize = %d\nCONSTANT Small = %s\nINIT Init\nNEXT Next\nPROPERTY ReadOnlySharing\nINVARIANT NonInterference\nINVARIANT AllDecided\nINVARIANT StepsAsSolo\nINVARIANT ExportSetup\nINVARIANT ExportSchedule\nCHECK_DEADLOCK FALSE\n", cfgName, g, small)
 	res, err := ctx.RunTLC(core.TLCOpts{Module: "SoyConcurrent", Cfg: cfg, Workers: 4, Timeout: 9 * time.Minute, Label: fmt.Sprintf("interleavings:G=%d:%s", g, cfgName)})
 	if err != nil {
 		return nil, err
@@ -294,10 +298,12 @@ func judge(ctx *core.Ctx, outs []*ChildOutput) {
 	var renders, js, compiles int64
 	races, harnessRaces := 0, 0
 	var solo []SoloRender
+	var walls []string
 	for _, o := range outs {
 		for _, e := range o.ToolErrors {
 			ctx.ToolError("child (%s): %s", o.Phase, e)
 		}
+		walls = append(walls, fmt.Sprintf("%s:%.1fs", o.Phase, o.WallS))
 		forced += o.ForcedRuns
 		inSync += o.ForcedInSync
 		random += o.RandomRuns
@@ -328,16 +334,17 @@ func judge(ctx *core.Ctx, outs []*ChildOutput) {
 				what += " on " + strip(r.Field)
 			}
 			for _, a := range r.Accesses {
-				if len(a.Where) > 0 {
-					what += fmt.Sprintf("; %s at %s", a.Kind, strings.TrimPrefix(a.Where[0], core.RepoDir+"/"))
+				if k := a.SoyFrame(); k >= 0 && k < len(a.Where) {
+					what += fmt.Sprintf("; %s at %s", a.Kind, strings.TrimPrefix(a.Where[k], core.RepoDir+"/"))
 				}
 			}
-			ctx.Violation(raceSig(r), what, map[string]interface{}{"kind": "race", "report": r.Raw, "field": r.Field, "phase": r.Phase, "origin": r.Origin})
+			ctx.Violation(raceSig(r), what, map[string]interface{}{"kind": "race", "report": r.Raw, "field": r.Field, "addressIn": r.AddrIn, "writeSite": r.WriteSite, "phase": r.Phase, "origin": r.Origin})
 		}
 		solo = append(solo, o.Solo...)
 	}
 	ctx.AddEvals(renders + js + compiles)
 	ctx.AddTraces(int64(forced + random + stress))
+	ctx.Extra["child_wall"] = walls
 	ctx.Extra["forced_schedule_runs"] = forced
 	ctx.Extra["forced_runs_in_step_with_model"] = inSync // the real code took exactly the node steps of the model's schedule
 	ctx.Extra["sampled_schedule_runs"] = random
